@@ -103,6 +103,7 @@ func (a *haAgg) common(res *haResult) {
 	c.Count("crashes_between_attest_and_send", st.BetweenAP)
 	c.Count("commits_after_a_crash", st.CommitAfterCrh)
 	c.Count("partition_changes", res.Flips)
+	c.Count("distinct_node_positions_at_partition_changes", res.FlipPos)
 	c.Count("messages_delivered", res.Deliveries)
 	c.Count("messages_dropped", res.Drops)
 	c.Count("scheduler_steps", res.Steps)
@@ -273,9 +274,9 @@ func haAddCrashes(r *kit.Rand, cs *haCase, k int, double bool) {
 // C01
 
 func haCasesC01(c *kit.Ctx) []*haCase {
-	n := c.N(44, 1400)
+	n := c.N(44, 1200)
 	if c.Lane == "race" {
-		n = c.N(24, 140) // race lane: a 10% subsample (the detector slows everything down ~5-10x)
+		n = c.N(24, 120) // race lane: a 10% subsample (the detector slows everything down ~5-10x)
 	}
 	var cases []*haCase
 	for i := 0; i < n; i++ {
@@ -318,16 +319,16 @@ func TestVerifHAC01(t *testing.T) {
 // C02
 
 func haCasesC02(c *kit.Ctx) []*haCase {
-	hits := c.N(3, 12)
-	scheds := c.N(4, 60)
+	hits := c.N(3, 8)
+	scheds := c.N(4, 24)
+	if c.Lane == "race" {
+		hits, scheds = c.N(1, 2), c.N(2, 4) // race lane: a subsample (the detector slows everything down ~5-10x)
+	}
 	var cases []*haCase
 	i := 0
 	for _, hook := range haCrashHooks {
 		for h := 1; h <= hits; h++ {
 			for s := 0; s < scheds; s++ {
-				if !c.Quick() && hook == haHookDo && h > 6 {
-					continue
-				}
 				cs := haGenCase(c, 2, i, "crash")
 				r := c.Rand(2, uint64(i), 0x6372)
 				cs.Nodes = []int{3, 4, 5}[s%3]
@@ -389,6 +390,7 @@ func TestVerifHAC02(t *testing.T) {
 			c.Sample(map[string]any{"case": res.Case.Idx, "crash": res.CrashRecs[0], "votes_reemitted_with_same_value": res.Stats.ReEmitted})
 		}
 	})
+	c.Observation("reading note, not decided by this check: when persist fails, checkpointAction.do sends the error on the unbuffered persistStateDone channel; if the votes task had no selected vote nobody receives and the demux loop blocks (liveness under disk failure)")
 	c.Require("crashes", int64(len(cases)/2))
 	c.Require("crashes_between_attest_and_send", 5)
 	c.Require("votes_reemitted_same_value_after_restore", 5)
@@ -404,7 +406,7 @@ func TestVerifHAC02(t *testing.T) {
 // C03
 
 func haCasesC03(c *kit.Ctx) []*haCase {
-	n := c.N(36, 900)
+	n := c.N(36, 800)
 	var cases []*haCase
 	for i := 0; i < n; i++ {
 		var cs *haCase
@@ -466,7 +468,7 @@ func TestVerifHAC03(t *testing.T) {
 // C05
 
 func haCasesC05(c *kit.Ctx) []*haCase {
-	n := c.N(40, 1200)
+	n := c.N(40, 1000)
 	var cases []*haCase
 	for i := 0; i < n; i++ {
 		cs := haGenCase(c, 5, i, "progress")
